@@ -53,8 +53,13 @@ def main():
         meta["violation_signatures"] = {k: sorted(set(v))[:6] for k, v in sigs.items()}
         meta["check_run"] = "tools/try_mutant.py seeded/%s/patch.diff %s --repo <scratch copy of /repo at its HEAD>" % (sid, " ".join(checks))
         json.dump(meta, open(mp, "w"), indent=1)
+        try:   # several evaluations may run side by side on different scratch copies: merge, do not overwrite
+            results = json.load(open(rp))
+        except (OSError, ValueError):
+            pass
         results[sid] = res
-        json.dump(results, open(rp, "w"), indent=1, sort_keys=True)
+        json.dump(results, open(rp + ".%d" % os.getpid(), "w"), indent=1, sort_keys=True)
+        os.replace(rp + ".%d" % os.getpid(), rp)
         print(sid, res, flush=True)
 
 if __name__ == "__main__":
